@@ -63,7 +63,7 @@ def main():
             shutil.rmtree(os.path.join(ROOT, "out", p + "_" + name), ignore_errors=True)
         shutil.rmtree(os.path.join(ROOT, "out", "evidence_" + name), ignore_errors=True)
         meta["checks"] = results
-        meta["detected_by_own_check"] = results[pid]["exit"] == 1
+        meta["detected_by_own_check"] = results[pid]["exit"] == 1 and results[pid]["violation_lines"] > 0
         meta["ran"] = "tools/eval_seeded.py %s %s %s %s" % (pid, src, name, " ".join(others))
     finally:
         sh("git -C /repo worktree remove --force %s" % wt)
